@@ -202,6 +202,128 @@ Section ReaderProofs.
     Qed.
   End Quirks.
 
+  (* ---- whole client constructions: the readers only ever touch entry files ---- *)
+  Definition only_entries (f f' : fsys) : Prop :=
+    forall m, (forall k id, m <> fname k id) -> f' m = f m.
+
+  Lemma only_entries_refl f : only_entries f f.
+  Proof. intros m _. reflexivity. Qed.
+
+  Lemma only_entries_trans f g h : only_entries f g -> only_entries g h -> only_entries f h.
+  Proof. intros A B m Hm. rewrite (B m Hm). apply A, Hm. Qed.
+
+  Lemma get_only_entries flt c t id f : only_entries f (snd (cache_get deser flt c t id f)).
+  Proof.
+    rewrite cache_get_closed. unfold get_closed. intros m Hm.
+    assert (D : fs_del f (fname (i_kind c) id) m = f m).
+    { unfold fs_del. rewrite str_eqb_neq by apply Hm. reflexivity. }
+    destruct (f (fname (i_kind c) id)) as [x|]; [|reflexivity].
+    destruct (expired c t x); [exact D|].
+    destruct flt; cbn; try reflexivity;
+      try (destruct (kind_eqb (i_kind c) KGcf); [reflexivity|exact D]);
+      destruct (deser (i_kind c) (f_data x)); cbn; try reflexivity;
+      destruct (kind_eqb (i_kind c) KGcf); first [reflexivity|exact D].
+  Qed.
+
+  Lemma put_only_entries c t id o f : only_entries f (snd (cache_put ser NoFault c t id o f)).
+  Proof.
+    intros m Hm. destruct (put_result c t id o f) as [f' [P L]]. rewrite P. cbn. rewrite L.
+    rewrite str_eqb_neq by apply Hm. reflexivity.
+  Qed.
+
+  Lemma r_get_only_entries c t id f : only_entries f (snd (r_get deser c t id f)).
+  Proof. destruct c as [c|]; [apply get_only_entries|apply only_entries_refl]. Qed.
+
+  Lemma r_put_only_entries c t id o isdoc f : only_entries f (snd (r_put ser c t id o isdoc f)).
+  Proof.
+    destruct c as [c|]; [|apply only_entries_refl]. cbn.
+    destruct (kind_eqb (i_kind c) KXml && negb isdoc); [apply only_entries_refl|apply put_only_entries].
+  Qed.
+
+  Lemma doc_open_only_entries c pol t u f : only_entries f (snd (doc_open ser deser md5 c pol t u f)).
+  Proof.
+    unfold doc_open, bind.
+    pose proof (r_get_only_entries (if (pol =? 0)%N then Some c else None) t (mangle (md5 u) s_document) f) as G.
+    destruct (r_get deser (if (pol =? 0)%N then Some c else None) t (mangle (md5 u) s_document) f) as [[[x|]|] f1];
+      cbn in G |- *; try exact G.
+    pose proof (r_put_only_entries (if (pol =? 0)%N then Some c else None) t (mangle (md5 u) s_document) u true f1) as P.
+    destruct (r_put ser (if (pol =? 0)%N then Some c else None) t (mangle (md5 u) s_document) u true f1) as [[[]|] f2];
+      cbn in P |- *; eapply only_entries_trans; eauto.
+  Qed.
+
+  Lemma load_only_entries c pol t us f : only_entries f (snd (load ser deser md5 c pol t us f)).
+  Proof.
+    revert f. induction us as [|u us IH]; intro f; [apply only_entries_refl|].
+    cbn [load]. unfold bind at 1.
+    pose proof (doc_open_only_entries c pol t u f) as D.
+    destruct (doc_open ser deser md5 c pol t u f) as [[a|] f1]; cbn in D |- *; [|exact D].
+    unfold bind. pose proof (IH f1) as L.
+    destruct (load ser deser md5 c pol t us f1) as [[b|] f2]; cbn in L |- *; eapply only_entries_trans; eauto.
+  Qed.
+
+  Lemma defs_open_only_entries q_none q_stale c pol t w unwrap f :
+    only_entries f (snd (defs_open ser deser md5 q_none q_stale c pol t w unwrap f)).
+  Proof.
+    unfold defs_open, bind.
+    pose proof (r_get_only_entries (if (pol =? 1)%N then Some c else None) t (mangle (md5 (w_main w)) s_wsdl) f) as G.
+    destruct (r_get deser (if (pol =? 1)%N then Some c else None) t (mangle (md5 (w_main w)) s_wsdl) f)
+      as [[[o|]|] f1]; cbn in G |- *; try exact G.
+    - destruct (q_none && existsb negb (w_imps w)); exact G.
+    - pose proof (load_only_entries c pol t (w_docs w) f1) as L.
+      destruct (load ser deser md5 c pol t (w_docs w) f1) as [[b|] f2]; cbn in L |- *;
+        [|eapply only_entries_trans; eauto].
+      pose proof (r_put_only_entries (if (pol =? 1)%N then Some c else None) t
+                    (mangle (md5 (w_main w)) s_wsdl) (wsdl_obj unwrap) false f2) as P.
+      destruct (r_put ser (if (pol =? 1)%N then Some c else None) t (mangle (md5 (w_main w)) s_wsdl)
+                      (wsdl_obj unwrap) false f2) as [[[]|] f3]; cbn in P |- *;
+        eapply only_entries_trans; eauto; eapply only_entries_trans; eauto.
+  Qed.
+
+  Lemma check_version_same t f : ver_ok ver f = true -> check_version ver t f = (Ret tt, f).
+  Proof.
+    unfold ver_ok, check_version, try_catch, bind, ret, raise, sys_open_r, sys_read.
+    destruct (f s_version) as [x|] eqn:E; [|discriminate]. cbn. rewrite E. cbn. intros ->. reflexivity.
+  Qed.
+
+  (* Client(url, cache=K(dir, d), cachingpolicy=p) twice over any directory in which the entries
+     of this WSDL are absent (or which carries another version's stamp, whatever it holds):
+     the second construction, any time the entries are still fresh for it, fetches nothing *)
+  Lemma second_client_fetches_nothing_l q_none q_stale w k d d' pol u1 u2 f0 t dt :
+    (pol = 0%N \/ (pol = 1%N /\ k <> KXml)) -> (0 <= d)%Z -> fresh d' t (t + dt) = true ->
+    (ver_ok ver f0 = true ->
+       (forall u, In u (w_docs w) -> f0 (doc_name k u) = None) /\ f0 (wsdl_name k (w_main w)) = None) ->
+    match crun ser deser ver md5 q_none q_stale w (f0, t)
+               [CClient k d pol u1; CAdvance dt; CClient k d' pol u2] with
+    | [(_, Some (_, _)); _; (_, Some (fetched, _))] => fetched = []
+    | _ => False
+    end.
+  Proof.
+    intros P D Fr Cold. cbn [crun cstep fst].
+    pose proof (version_check_l ver t f0) as [VS VC].
+    pose proof (check_version_closed ver t f0) as [_ CL].
+    destruct (check_version ver t f0) as [r0 f1] eqn:CV. cbn in VS, VC, CL.
+    assert (V1 : ver_ok ver f1 = true).
+    { destruct (ver_ok ver f0) eqn:V0; [|apply VC; reflexivity].
+      rewrite (check_version_same t f0 V0) in CV. inversion CV; subst. exact V0. }
+    assert (Cold1 : (forall u, In u (w_docs w) -> f1 (doc_name k u) = None) /\ f1 (wsdl_name k (w_main w)) = None).
+    { destruct (ver_ok ver f0) eqn:V0.
+      - rewrite (check_version_same t f0 V0) in CV. inversion CV; subst. apply Cold. reflexivity.
+      - destruct (VC eq_refl) as [Gone _]. split; intros; apply Gone. }
+    destruct Cold1 as [ColdD ColdW].
+    destruct (defs_open_cases q_none q_stale (mkinst k d) pol t w u1 f1) as [[x [o [_ [F _]]]]|[b [f2 E]]].
+    { cbn in F. rewrite ColdW in F. discriminate F. }
+    rewrite E. cbn [fst snd].
+    assert (V2 : ver_ok ver f2 = true).
+    { pose proof (defs_open_only_entries q_none q_stale (mkinst k d) pol t w u1 f1) as OE. rewrite E in OE. cbn in OE.
+      unfold ver_ok in *. rewrite OE; [exact V1|]. intros k' id' Q. symmetry in Q. revert Q. apply fname_not_version. }
+    cbn [cstep fst snd]. rewrite (check_version_same (t + dt) f2 V2).
+    destruct (warm_fetches_nothing_l q_none q_stale (mkinst k d) (mkinst k d') pol t (t + dt)%Z w u1 u2 f1 b
+                (COk true (w_docstyle w && u1)) f2)
+      as [out' W]; try assumption; try reflexivity.
+    destruct (defs_open ser deser md5 q_none q_stale (mkinst k d') pol (t + dt) w u2 f2) as [[r|] f3];
+      cbn in W; inversion W; subst. reflexivity.
+  Qed.
+
   (* the options of the client being built are attached to the WSDL and to every imported
      WSDL: as the code should be (imp.imported None skipped), always ... *)
   Lemma options_reattached_l q_stale c pol t w unwrap f :
